@@ -109,7 +109,8 @@ let () = run_lines (fun f ->
         | [n; c] -> (labels_of_text n, n_of_int (int_of_string c)) | _ -> failwith "probe")
         (String.split_on_char ',' (String.sub pf 2 (String.length pf - 2))) in
     let parsed = Stdlib.List.map (fun s ->
-        (String.sub s 0 1, Stdlib.List.map parse_zone (String.split_on_char ';' (String.sub s 2 (String.length s - 2))))) steps in
+        ((* R: a configuration like S; only the runner treats it differently (no new sentinel, barrier) *)
+         (if String.sub s 0 1 = "R" then "S" else String.sub s 0 1), Stdlib.List.map parse_zone (String.split_on_char ';' (String.sub s 2 (String.length s - 2))))) steps in
     (* model *)
     let model =
       try
